@@ -51,6 +51,10 @@ func runC12(c *core.Ctx) {
 	wireIntegerSinks(c, newDecoderSet(c), "C12.negative-length", "C12.negative-length", true)
 	c.Doc("C12.locks", "bus/**: every mutex released on every path (a leaked lock wedges the object/service for every client); no blocking channel operation while a mutex is held", 30)
 	ruleBusLocks(c, lc)
+	// a send on a closed mailbox panics in a connection goroutine and takes the
+	// whole server down (rule shared with C16)
+	c.Doc("C16.mailbox", "mailboxes are never closed (Receive sends to a mailbox after releasing the service lock)", 1)
+	ruleMailboxNeverClosed(c)
 }
 
 // ruleBusLocks: lock pairing over the whole bus tree and no blocking channel
